@@ -17,6 +17,7 @@ CXX="g++ -std=c++17 -O1 -DNDEBUG -I$WT/include -I/usr/include/eigen3 -I$WT/inter
 EXTRA=""
 grep -q "piqp.h" $D/demo.cpp && EXTRA="$WT/interfaces/c/src/piqp.cpp"
 grep -q "matio\|io_utils" $D/demo.cpp && EXTRA="$EXTRA -lmatio"
+grep -q "fail_hook\|piqp_verif" $D/demo.cpp && ! grep -q "define PIQP_VERIF" $D/demo.cpp && CXX="$CXX -DPIQP_VERIF"
 [ -d $D/mock ] && CXX="$CXX -I$D/mock -I$WT/interfaces/matlab"
 $CXX $D/demo.cpp $EXTRA -o $WT/_demo_clean > $WT/_demo_clean.log 2>&1; ( cd $WT && timeout 600 ./_demo_clean > _demo_clean.out 2>&1 ); CLEAN=$?
 git apply $D/patch.diff || { echo '{"error":"patch does not apply"}'; exit 2; }
